@@ -376,7 +376,7 @@ theorem rdropsOnce_of_eq {α : Type} {res : M (Out α)} {v v' : Vec} {r : SpecOu
   have := rwf_after_of_eq hv hg hperm hlen hins
   exact ⟨_, hres, this.1, this.2⟩
 
-theorem RGrows.refl' {v : Vec} (hv : v.RWF) : RGrows v v v.rabs :=
+theorem RGrows.refl_of_rwf {v : Vec} (hv : v.RWF) : RGrows v v v.rabs :=
   ⟨hv.slots_eq.1, rfl, rfl, rfl, Nat.le_refl _⟩
 
 theorem rev_drop_owner (bombs : List Id) (u : Bool) (v : Vec) (hv : v.RWF) :
@@ -387,31 +387,31 @@ theorem rev_drop_owner (bombs : List Id) (u : Bool) (v : Vec) (hv : v.RWF) :
 
 theorem rev_pop_drops_once (v : Vec) (hv : v.RWF) : RDropsOnce (rpop v) v [] := by
   have ⟨hs, hl⟩ := hv.slots_eq
-  refine rdropsOnce_of_eq hv (RGrows.refl' hv) (rpop_eq v v.rabs hs hl) (by simpa using rpopSpec_perm v.rabs) ?_ (by simpa using hv.2)
+  refine rdropsOnce_of_eq hv (RGrows.refl_of_rwf hv) (rpop_eq v v.rabs hs hl) (by simpa using rpopSpec_perm v.rabs) ?_ (by simpa using hv.2)
   have h1 := (rpopSpec_perm v.rabs).length_eq; have := hv.len_le_cap
   simp only [List.length_append] at h1; omega
 
 theorem rev_clear_drops_once (bombs : List Id) (v : Vec) (hv : v.RWF) : RDropsOnce (rclear bombs v) v [] := by
   have ⟨hs, hl⟩ := hv.slots_eq
-  exact rdropsOnce_of_eq hv (RGrows.refl' hv) (rclear_eq bombs v v.rabs hs hl) (by simpa using clearSpec_perm bombs v.rabs)
+  exact rdropsOnce_of_eq hv (RGrows.refl_of_rwf hv) (rclear_eq bombs v v.rabs hs hl) (by simpa using clearSpec_perm bombs v.rabs)
     (by simp [clearSpec]) (by simpa using hv.2)
 
 theorem rev_truncate_drops_once (bombs : List Id) (v : Vec) (n : Nat) (hv : v.RWF) : RDropsOnce (rtruncate bombs v n) v [] := by
   have ⟨hs, hl⟩ := hv.slots_eq
-  refine rdropsOnce_of_eq hv (RGrows.refl' hv) (rtruncate_eq bombs v v.rabs n hs hl) (by simpa using rtruncateSpec_perm bombs v.rabs n) ?_
+  refine rdropsOnce_of_eq hv (RGrows.refl_of_rwf hv) (rtruncate_eq bombs v v.rabs n hs hl) (by simpa using rtruncateSpec_perm bombs v.rabs n) ?_
     (by simpa using hv.2)
   have h1 := (rtruncateSpec_perm bombs v.rabs n).length_eq; have := hv.len_le_cap
   simp only [List.length_append] at h1; omega
 
 theorem rev_remove_drops_once (v : Vec) (i : Nat) (hv : v.RWF) : RDropsOnce (rremove v i) v [] := by
   have ⟨hs, hl⟩ := hv.slots_eq
-  refine rdropsOnce_of_eq hv (RGrows.refl' hv) (rremove_eq v v.rabs i hs hl) (by simpa using removeSpec_perm v.rabs i) ?_
+  refine rdropsOnce_of_eq hv (RGrows.refl_of_rwf hv) (rremove_eq v v.rabs i hs hl) (by simpa using removeSpec_perm v.rabs i) ?_
     (by simpa using hv.2)
   have := removeSpec_len v.rabs i; have := hv.len_le_cap; omega
 
 theorem rev_swap_remove_drops_once (v : Vec) (i : Nat) (hv : v.RWF) : RDropsOnce (rswapRemove v i) v [] := by
   have ⟨hs, hl⟩ := hv.slots_eq
-  refine rdropsOnce_of_eq hv (RGrows.refl' hv) (rswapRemove_eq v v.rabs i hs hl) (by simpa using rswapRemoveSpec_perm v.rabs i) ?_
+  refine rdropsOnce_of_eq hv (RGrows.refl_of_rwf hv) (rswapRemove_eq v v.rabs i hs hl) (by simpa using rswapRemoveSpec_perm v.rabs i) ?_
     (by simpa using hv.2)
   have h1 := (rswapRemoveSpec_perm v.rabs i).length_eq; have := hv.len_le_cap
   simp only [List.length_append] at h1; omega
@@ -443,7 +443,7 @@ theorem rev_insert_drops_once (env : Env) (v : Vec) (i : Nat) (id : Id) (hv : v.
     · have hr' : rroom env v 1 = false := by simpa using hr
       rw [hr'] at hlen ⊢; simp at hlen; omega
   · simp only [hi, ↓reduceIte] at heq
-    refine rdropsOnce_of_eq hv (RGrows.refl' hv) heq (insertSpec_perm _ _ _ _) ?_ hfresh
+    refine rdropsOnce_of_eq hv (RGrows.refl_of_rwf hv) heq (insertSpec_perm _ _ _ _) ?_ hfresh
     have : ¬ (i ≤ v.rabs.length ∧ rroom env v 1 = true) := by omega
     simp [this] at hlen; omega
 
@@ -480,13 +480,13 @@ theorem rev_resize_drops_once (env : Env) (v : Vec) (newLen : Nat) (value : Id) 
     · have hr' : rroom env v (newLen - v.len) = false := by simpa using hr
       rw [hr'] at hlen ⊢; simp at hlen; omega
   · simp only [h, ↓reduceIte] at heq
-    refine rdropsOnce_of_eq hv (RGrows.refl' hv) heq (rresizeSpec_perm _ _ _ _ _ _) ?_ hfresh
+    refine rdropsOnce_of_eq hv (RGrows.refl_of_rwf hv) heq (rresizeSpec_perm _ _ _ _ _ _) ?_ hfresh
     split at hlen <;> omega
 
 theorem rev_into_iter_drops_once (bombs : List Id) (v : Vec) (script : List Pull) (hv : v.RWF) :
     RDropsOnce (rintoIter bombs v script) v [] := by
   have ⟨hs, hl⟩ := hv.slots_eq
-  exact rdropsOnce_of_eq hv (RGrows.refl' hv) (rintoIter_eq bombs v v.rabs script hs hl)
+  exact rdropsOnce_of_eq hv (RGrows.refl_of_rwf hv) (rintoIter_eq bombs v v.rabs script hs hl)
     (by simpa using intoIterSpec_perm bombs v.rabs script) (by simp [intoIterSpec]) (by simpa using hv.2)
 
 /-- `MutBumpVecRev::append(other)`: the elements of `other` move to the front of `self` (each still owned
